@@ -162,7 +162,8 @@ def check_case(ctx, pm, case, tmpdir):
     if g.get("platforms") != tree.get("platforms"):
         probs.append("[general] platforms %r != [tree] platforms %r" % (g.get("platforms"), tree.get("platforms")))
     try:
-        if int(float(tree.get("build_timestamp"))) != int(g.get("timestamp")):
+        from rv.downconvert import exact_int
+        if exact_int(tree.get("build_timestamp")) != int(g.get("timestamp")):
             probs.append("[general] timestamp %r is not the integer part of [tree] build_timestamp %r" % (g.get("timestamp"), tree.get("build_timestamp")))
     except (TypeError, ValueError):
         probs.append("timestamps unreadable: %r / %r" % (g.get("timestamp"), tree.get("build_timestamp")))
